@@ -775,26 +775,77 @@ theorem safe_of_sep_token (p t : Tok) (ht : TokShape t)
     rw [writeArg_data t hne, hd]
     simp [safeBoundary]
 
-theorem writer_joined (p : Tok) (r : List Tok) (hp : TokShape p) (hr : ∀ t ∈ r, TokShape t) :
+theorem endsInHexEscape_eq (b : List Char) : endsInHexEscape b = endsHexEsc b := rfl
+
+theorem endsHexEsc_last (l : List Char) (c : Char) (hc : isHexRange c = false) : endsHexEsc (l ++ [c]) = false := by
+  simp [endsHexEsc, List.reverse_append, List.takeWhile, hc]
+
+theorem endsHexEsc_of_getLast (l : List Char) (c : Char) (h : l.getLast? = some c) (hc : isHexRange c = false) :
+    endsHexEsc l = false := by
+  have hne : l ≠ [] := by intro e; subst e; simp at h
+  have h1 := List.dropLast_concat_getLast hne
+  have h2 : l.getLast hne = c := by
+    have := List.getLast?_eq_some_getLast hne
+    rw [this] at h; exact Option.some.inj h
+  rw [← h1, h2]
+  exact endsHexEsc_last _ c hc
+
+/-- the lexeme written for a token ends in a hexadecimal escape exactly when the writer's test says so -/
+theorem writeArg_esc (p : Tok) (he : EscShape p) :
+    endsHexEsc (writeArg p) = (escTT p.tt && endsInHexEscape p.data) := by
+  by_cases hf : p.tt = .function
+  · have h1 : endsHexEsc (writeArg p) = false :=
+      endsHexEsc_of_getLast _ ')' (writeArg_fn_last p hf) (by decide)
+    simp [h1, escTT, hf]
+  · rw [writeArg_data p hf, endsInHexEscape_eq]
+    cases hx : endsHexEsc p.data with
+    | false => simp
+    | true =>
+      have := he hx
+      simp only [escTT, Bool.and_true, Bool.or_eq_true, beq_iff_eq]
+      rcases this with h | h | h
+      · simp [h]
+      · simp [h]
+      · simp [h]
+
+theorem writer_joined (p : Tok) (r : List Tok) (hp : TokShape p ∧ EscShape p) (hr : ∀ t ∈ r, TokShape t ∧ EscShape t) :
     Joined (writeArg p :: r.map writeArg) (writeArg p ++ writeVals (some p) (sepAfter p) r) := by
   induction r generalizing p with
   | nil => simpa [writeVals] using Joined.single (writeArg p)
   | cons t r ih =>
     have ht := hr t List.mem_cons_self
     have ih' := ih t ht (fun x hx => hr x (List.mem_cons_of_mem _ hx))
+    have hesc := writeArg_esc p hp.2
     simp only [List.map_cons, writeVals]
     split
-    · -- a space is written
-      simpa using Joined.space (writeArg p) (writeArg t) (r.map writeArg) _ ih'
+    · -- a space is written: two behind a hexadecimal escape
+      cases hc : (escTT p.tt && endsInHexEscape p.data) with
+      | true =>
+        simp only [hc, if_true]
+        simpa using Joined.space2 (writeArg p) (writeArg t) (r.map writeArg) _ (by rw [hesc, hc]) ih'
+      | false =>
+        simp only [hc, Bool.false_eq_true, if_false]
+        simpa using Joined.space (writeArg p) (writeArg t) (r.map writeArg) _ (by rw [hesc, hc]) ih'
     · rename_i hns
       split
-      · simpa using Joined.space (writeArg p) (writeArg t) (r.map writeArg) _ ih'
+      · -- `/` in front of `*`: kept apart
+        rename_i hoc
+        have hne : endsHexEsc (writeArg p) = false := by
+          simp only [Bool.and_eq_true, beq_iff_eq] at hoc
+          have hnf : p.tt ≠ .function := by rw [hoc.1]; decide
+          rw [writeArg_data p hnf]
+          have : p.data.getLast? = some '/' := by
+            have := hoc.2
+            simp only [opensComment, Bool.and_eq_true, beq_iff_eq] at this
+            exact this.1
+          exact endsHexEsc_of_getLast _ '/' this (by decide)
+        simpa using Joined.space (writeArg p) (writeArg t) (r.map writeArg) _ hne ih'
       · rename_i hnc
         have hnc' : (p.tt == .delim && opensComment p.data t.data) = false := by simpa using hnc
         have hsafe : safeBoundary (writeArg p) (writeArg t) = true := by
           by_cases hsa : sepAfter p = true
-          · exact safe_of_sepAfter p t hp ht hsa hnc'
-          · apply safe_of_sep_token p t ht
+          · exact safe_of_sepAfter p t hp.1 ht.1 hsa hnc'
+          · apply safe_of_sep_token p t ht.1
             simp only [Bool.and_eq_true, Bool.not_eq_true', bne_iff_ne, ne_eq, not_and, Bool.not_eq_false] at hns
             have hsa' : sepAfter p = false := by simpa using hsa
             by_cases hcm : t.tt = .comma
